@@ -23,6 +23,7 @@ RULE = ("random case (network incl. cores with complex attractors and networks w
         "complex attractor with at least two candidates, or a step with two driver sets, or at least 4 nodes; distinct by case hash")
 ASSUMPTIONS = ["E8: CPython random.Random(123), dict insertion order, networkx adjacency order", "clingo enumeration order is a function of the program text"]
 CASE_TIMEOUT = {"quick": 120, "thorough": 300}
+DECOY = 0.0        # every observation runs in fresh interpreters with their own warm-up diagrams
 WORKER = os.path.join(common.VERIF, "harness", "c19_worker.py")
 
 
